@@ -70,4 +70,8 @@ class _ValueGenerator:
             yield self.p1, self.p2
 
         else:  # iterate both
+            if len(self.p1) != len(self.p2):
+                raise ValueError(
+                    "Operands must have the same length (%d != %d)" % (len(self.p1), len(self.p2))
+                )
             yield from zip(self.p1, self.p2)
